@@ -53,6 +53,12 @@ CHECKS = {
             "all other tokens must be identical, listed values must be plain data, non-exempt marker values must be listed and gone from the SQL, exempt ones inline; "
             "SQLite-class statements are executed in both forms on a small database and must agree.",
             "Trusted: reference lexers and the value decoder shared with C05; the structured statement generator pbt/gen.py."),
+    "C12": ("exhaustive matrix: Term subclasses discovered in the live package x defining/operand positions x six classes, plus GROUP BY / ORDER BY by defined and undefined alias; token-insertion oracle over the reference lexer",
+            "Each cell renders the statement with and without the alias: in a defining position the aliased form must be the plain form plus [AS] and one correctly "
+            "quoted alias token inserted exactly at the end of the term; in an operand position the two forms must be identical; a GROUP BY / ORDER BY item is "
+            "either an alias the select list defines or the alias-free expression (never an alias under MSSQL/Oracle GROUP BY). Classes without a recipe are "
+            "built from their signature; unbuildable ones are listed as uncovered.",
+            "Trusted: the position templates in pbt/props/c12.py and the legality table (Star/Index/Rollup carry no alias; period criteria are not select items)."),
 }
 
 NOT_BUILT = {}
